@@ -407,6 +407,7 @@ func cmdRouter(prop string, args []string) {
 		"fault_kinds_fired":   stats["fault_kinds_fired"],
 		"outcomes":            stats["outcomes"],
 		"probes":              stats["probes"],
+		"event_kinds":         stats["event_kinds"],
 		"unjudged_policy_requests": num(stats, "unjudged_policy_requests"),
 		"projects":            len(rs.projects),
 		"rejected_workloads":  len(rs.rejected),
